@@ -50,8 +50,8 @@ use std::time::{Duration, SystemTime, UNIX_EPOCH};
 use tensor_chain::block::Transaction;
 use tensor_chain::consensus::{ConsensusConfig, ConsensusManager, DeltaVector};
 use tensor_chain::distributed_tx::{
-    DistributedTxConfig, DistributedTxCoordinator, ParticipantState, PrepareRequest, PrepareVote,
-    SerializableLockState, TxParticipant, TxPhase, UndoEntry, VoteRecordError,
+    CoordinatorState, DistributedTransaction, DistributedTxConfig, DistributedTxCoordinator, ParticipantState, PrepareRequest,
+    PrepareVote, SerializableLockState, TxParticipant, TxPhase, UndoEntry, VoteRecordError,
 };
 use tensor_store::{ScalarValue, SparseVector, TensorData, TensorStore, TensorValue};
 
@@ -370,6 +370,12 @@ struct Real {
     expect: Vec<BTreeMap<u64, String>>,
     /// per shard and key: the commit-decided tx whose applied operation produced `expect`'s entry (or absence)
     writer: Vec<BTreeMap<u64, usize>>,
+    /// where `save_to_store` puts the coordinator's checkpoint (`ckpt`), read back by `crestore`
+    ckpt_store: Option<TensorStore>,
+    /// canonical text of the checkpoint in `ckpt_store` (read back from the store when it is written)
+    ckpt_shown: Option<String>,
+    /// the store the virtual-clock reloads go through (one per system, reused)
+    scratch: Option<TensorStore>,
 }
 
 fn mk_coord(cfg: &DistributedTxConfig) -> DistributedTxCoordinator {
@@ -410,6 +416,9 @@ impl Real {
             hits: vec![],
             expect: vec![BTreeMap::new(); n],
             writer: vec![BTreeMap::new(); n],
+            ckpt_store: None, // created by the first `ckpt` (a TensorStore is not cheap to build)
+            ckpt_shown: None,
+            scratch: None,
         }
     }
     /// key -> (dense tx, real handle) of the shard's lock table
@@ -543,10 +552,9 @@ impl Real {
             UndoEntry::Delete { key } => format!("x{}", kid(key)),
         }
     }
-    fn dump(&self) -> String {
-        let st = self.coord.to_state();
-        let mut txs: Vec<(u64, String)> = st
-            .pending
+    /// canonical text of a pending map (`showTx` of the driver, sorted by dense tx id)
+    fn show_pending(&self, pending: &HashMap<u64, DistributedTransaction>) -> String {
+        let mut txs: Vec<(u64, String)> = pending
             .values()
             .map(|t| {
                 let mut votes: Vec<(usize, String)> = t.votes.iter().map(|(s, v)| (*s, self.show_vote(v))).collect();
@@ -558,7 +566,19 @@ impl Real {
             })
             .collect();
         txs.sort();
-        let c = txs.into_iter().map(|x| x.1).collect::<Vec<_>>().join(",");
+        txs.into_iter().map(|x| x.1).collect::<Vec<_>>().join(",")
+    }
+    /// the `CoordinatorState` that `save_to_store` last wrote (`ckpt`)
+    fn saved_state(&self) -> Option<CoordinatorState> {
+        let data = self.ckpt_store.as_ref()?.get("_dtx:coordinator:n0:state").ok()?;
+        match data.get("state") {
+            Some(TensorValue::Scalar(ScalarValue::Bytes(bytes))) => bitcode::deserialize(bytes).ok(),
+            _ => None,
+        }
+    }
+    fn dump(&self) -> String {
+        let st = self.coord.to_state();
+        let c = self.show_pending(&st.pending);
         let mut ps = Vec::new();
         for (i, p) in self.parts.iter().enumerate() {
             let s = p.to_state();
@@ -614,7 +634,7 @@ impl Real {
             .collect();
         let vc: Vec<String> = self.cast.iter().map(|(t, s, y)| format!("{t}/{s}/{}", if *y { "y" } else { "c" })).collect();
         format!(
-            "C:{}|PA:0|{}|M:{}|H:{}|D:{}|AP:{}|DI:{}|R:{}|AO:{}|VC:{}",
+            "C:{}|PA:0|{}|M:{}|H:{}|D:{}|AP:{}|DI:{}|R:{}|AO:{}|VC:{}|K:{}",
             c,
             ps.join("|"),
             self.pool.len(),
@@ -624,7 +644,8 @@ impl Real {
             di.join(","),
             rs.join(","),
             ao.join(","),
-            vc.join(",")
+            vc.join(","),
+            self.ckpt_shown.as_ref().map_or("-".to_string(), |k| format!("[{k}]"))
         )
     }
 
@@ -656,26 +677,50 @@ impl Real {
             });
         }
     }
-    /// Put the coordinator on the virtual clock (see module doc).
+    /// Put the coordinator on the virtual clock (see module doc): a checkpoint / restore cycle of its present state.
     fn reload_coordinator(&mut self) {
-        let mut st = self.coord.to_state();
+        let st = self.coord.to_state();
+        let before = self.show_pending(&st.pending);
+        self.load_state(st);
+        // `to_state` -> bitcode -> `load_from_store` reproduces the pending map (Lean: checkpoint_restore_keeps_pending)
+        let after = self.show_pending(&self.coord.to_state().pending);
+        if before != after {
+            self.viol.push(Violation {
+                class: "tensor_chain.distributed_tx.coordinator/restore_changes_pending",
+                what: format!("a checkpoint / restore cycle of the coordinator changed its pending map from [{before}] to [{after}]"),
+            });
+        }
+    }
+    /// A new coordinator process that loads `st` through the public persistence API, every pending tx's
+    /// `started_at` set so that the REAL clock shows the virtual elapsed time (see module doc).
+    fn load_state(&mut self, mut st: CoordinatorState) {
         let now = now_ms();
         for (id, tx) in st.pending.iter_mut() {
             let begun = self.by_real.get(id).map_or(self.clock, |&d| self.txs[d].begun_at);
             tx.started_at = now - (self.clock - begun) * UNIT;
         }
-        let scratch = TensorStore::new();
+        let scratch = self.scratch.get_or_insert_with(TensorStore::new);
         let bytes = bitcode::serialize(&st).expect("coordinator state serializes");
         let mut data = TensorData::new();
         data.set("state", TensorValue::Scalar(ScalarValue::Bytes(bytes)));
         scratch.put("_dtx:coordinator:n0:state", data).unwrap();
         self.coord = DistributedTxCoordinator::load_from_store(
             "n0",
-            &scratch,
+            scratch,
             ConsensusManager::new(ConsensusConfig::default()),
             self.cfg.clone(),
         )
         .expect("coordinator state loads");
+    }
+    /// has the transaction's deadline passed on the virtual clock?
+    fn past_deadline(&self, tx: usize) -> bool {
+        self.txs.get(tx).is_some_and(|t| self.clock - t.begun_at > self.t_units)
+    }
+    /// `get_pending_decisions`, dense ids, sorted
+    fn pending_decisions(&self) -> Vec<(u64, TxPhase)> {
+        let mut dec: Vec<(u64, TxPhase)> = self.coord.get_pending_decisions().into_iter().map(|(t, p)| (self.dense(t), p)).collect();
+        dec.sort_by_key(|d| d.0);
+        dec
     }
     /// Age every participant's locks / prepared entries by `d` units (witness replays only).
     fn age_participants(&mut self, d: u64) {
@@ -1071,14 +1116,40 @@ impl Real {
                 self.drain();
                 r
             },
-            // ---- the coordinator's state-based recovery API (Recovery.lean; outside the alphabet)
+            // ---- the coordinator's state-based recovery API (Recovery.lean / Restart.lean)
             ["crecover"] => {
                 if !self.wallclock {
                     self.reload_coordinator();
                 }
+                // which arm of recover() each pending entry meets: phase x deadline (virtual clock)
+                for t in self.coord.to_state().pending.values() {
+                    let d = self.dense(t.tx_id) as usize;
+                    self.hits.push(format!(
+                        "restart.recover.{}_{}",
+                        format!("{:?}", t.phase).to_lowercase(),
+                        if self.wallclock { "wallclock" } else if self.past_deadline(d) { "past_deadline" } else { "in_time" }
+                    ));
+                }
+                let listed_before = self.pending_decisions();
                 let st = self.coord.recover();
-                let mut dec: Vec<(u64, TxPhase)> = self.coord.get_pending_decisions().into_iter().map(|(t, p)| (self.dense(t), p)).collect();
-                dec.sort_by_key(|d| d.0);
+                let dec = self.pending_decisions();
+                // recover() keeps every pending decision, at any clock value (Lean: recover_keeps_every_pending_decision)
+                for (t, p) in &listed_before {
+                    match dec.iter().find(|d| d.0 == *t) {
+                        Some((_, p2)) if p2 == p => {},
+                        Some((_, p2)) => self.viol.push(Violation {
+                            class: "tensor_chain.distributed_tx.coordinator/recover_flips_pending_decision",
+                            what: format!(
+                                "get_pending_decisions listed (tx {t}, {p:?}) before recover() and lists (tx {t}, {p2:?}) after it (virtual clock {}, tx begun at {}, timeout {} units; decisions announced so far {:?})",
+                                self.clock, self.txs.get(*t as usize).map_or(0, |x| x.begun_at), self.t_units, self.decided
+                            ),
+                        }),
+                        None => self.viol.push(Violation {
+                            class: "tensor_chain.distributed_tx.coordinator/recover_drops_pending_decision",
+                            what: format!("get_pending_decisions listed (tx {t}, {p:?}) before recover() and does not list tx {t} after it"),
+                        }),
+                    }
+                }
                 // the glue re-sends every pending decision
                 for (t, p) in &dec {
                     let commit = *p == TxPhase::Committing;
@@ -1098,11 +1169,82 @@ impl Real {
             ["ccomplete_commit", tx] | ["ccomplete_abort", tx] => {
                 let tx: usize = tx.parse().unwrap();
                 let real = self.real_tx(tx);
-                let r = if w[0] == "ccomplete_commit" { self.coord.complete_commit(real) } else { self.coord.complete_abort(real) };
+                let commit = w[0] == "ccomplete_commit";
+                let r = if commit { self.coord.complete_commit(real) } else { self.coord.complete_abort(real) };
                 match r {
-                    Ok(()) => "ok".into(),
+                    Ok(()) => {
+                        // a completion is accepted only for the decision that was announced
+                        // (Lean: pending_decision_agrees_with_decision_after_any_restart)
+                        if self.decided.contains(&(tx, !commit)) {
+                            self.viol.push(Violation {
+                                class: if commit {
+                                    "tensor_chain.distributed_tx.coordinator/complete_commit_accepted_for_abort_decided_tx"
+                                } else {
+                                    "tensor_chain.distributed_tx.coordinator/complete_abort_accepted_for_commit_decided_tx"
+                                },
+                                what: format!("{}({tx}) succeeded although the coordinator announced the decisions {:?}", &w[0][1..], self.decided),
+                            });
+                        }
+                        "ok".into()
+                    },
                     Err(e) if e.to_string().contains("not found") => "err not_found".into(),
                     Err(_) => "err wrong_phase".into(),
+                }
+            },
+            // ---- coordinator restarts (Restart.lean): save_to_store / crash + load_from_store
+            ["ckpt"] => {
+                let store = self.ckpt_store.get_or_insert_with(TensorStore::new);
+                self.coord.save_to_store("n0", store).expect("save_to_store");
+                self.ckpt_shown = self.saved_state().map(|k| self.show_pending(&k.pending));
+                self.hits.push("restart.checkpoint".into());
+                "ok".into()
+            },
+            ["crestore"] => {
+                let current = self.saved_state().map(|k| self.show_pending(&k.pending)) == Some(self.show_pending(&self.coord.to_state().pending));
+                self.hits.push(format!("restart.restore.{}", if current { "current" } else { "stale_or_none" }));
+                let before = self.show_pending(&self.coord.to_state().pending);
+                match self.saved_state() {
+                    Some(st) => self.load_state(st),
+                    None => {
+                        // nothing persisted: `load_from_store` builds a fresh coordinator
+                        self.coord = DistributedTxCoordinator::load_from_store(
+                            "n0",
+                            &TensorStore::new(),
+                            ConsensusManager::new(ConsensusConfig::default()),
+                            self.cfg.clone(),
+                        )
+                        .expect("load_from_store without persisted state");
+                    },
+                }
+                let after = self.show_pending(&self.coord.to_state().pending);
+                if current && before != after {
+                    self.viol.push(Violation {
+                        class: "tensor_chain.distributed_tx.coordinator/restore_changes_pending",
+                        what: format!("crash + load_from_store of a current checkpoint changed the pending map from [{before}] to [{after}]"),
+                    });
+                }
+                format!("restored {}", self.coord.pending_count())
+            },
+            // a DOCTORED pending entry (outside the alphabet): only to compare recover() on every phase
+            ["cphase", tx, ph] => {
+                let tx: usize = tx.parse().unwrap();
+                let real = self.real_tx(tx);
+                let phase = match *ph {
+                    "preparing" => TxPhase::Preparing,
+                    "prepared" => TxPhase::Prepared,
+                    "committing" => TxPhase::Committing,
+                    "committed" => TxPhase::Committed,
+                    "aborting" => TxPhase::Aborting,
+                    _ => TxPhase::Aborted,
+                };
+                let mut st = self.coord.to_state();
+                match st.pending.get_mut(&real) {
+                    Some(t) => {
+                        t.phase = phase;
+                        self.load_state(st);
+                        "ok".into()
+                    },
+                    None => "err not_found".into(),
                 }
             },
             ["cforce", tx, b] => {
@@ -1241,6 +1383,29 @@ impl Real {
                 break 'data;
             }
         }
+        // ---- the coordinator's pending map agrees with the decisions it announced: a pending tx with a commit
+        //      decision is Committing, one with an abort decision is Aborting (Lean: recovery_pending_phase_agrees_with_decision,
+        //      pending_decision_agrees_with_decision_after_any_restart)
+        if !self.decided.is_empty() && self.coord.pending_count() > 0 {
+            let mut seen: Vec<usize> = vec![];
+            for i in 0..self.decided.len() {
+                let d = self.decided[i].0;
+                if seen.contains(&d) || d >= self.txs.len() {
+                    continue;
+                }
+                seen.push(d);
+                let Some(t) = self.coord.get(self.txs[d].real) else { continue };
+                let bad = (self.decided.contains(&(d, true)) && t.phase != TxPhase::Committing)
+                    || (self.decided.contains(&(d, false)) && t.phase != TxPhase::Aborting);
+                if bad {
+                    self.viol.push(Violation {
+                        class: "tensor_chain.distributed_tx.coordinator/pending_phase_contradicts_decision",
+                        what: format!("after `{line}`: tx {d} is pending in phase {:?} although the coordinator announced the decisions {:?}", t.phase, self.decided),
+                    });
+                    break;
+                }
+            }
+        }
         for &(s1, t1) in &self.applied {
             if let Some(&(s2, _)) = self.discarded.iter().find(|&&(_, t2)| t2 == t1) {
                 if !self.viol.iter().any(|v| v.class == "tensor_chain.2pc/split_outcome") {
@@ -1272,8 +1437,12 @@ struct Setup {
     lock_to: u64,
     wallclock: bool,
     age_parts: bool,
-    /// the generator also draws the coordinator's recovery API (outside the alphabet)
+    /// the generator also draws the coordinator's recovery API and force_resolve (which leaves the alphabet)
     recovery: bool,
+    /// the generator draws coordinator restarts inside the alphabet `ReachK` of Restart.lean: recover() + re-send,
+    /// complete_*, checkpoints, crash + restore of a current checkpoint, larger clock ticks; no sweep / abort() over a
+    /// Committing entry, no force_resolve
+    restart: bool,
 }
 impl Setup {
     fn init_line(&self) -> String {
@@ -1623,6 +1792,31 @@ fn gen_schedule_mode(r: &mut Rng, setup: &Setup, max_events: usize, rep: &mut Re
                 choices.push(("ccomplete", 5));
                 choices.push(("cforce", 2));
             }
+            if setup.restart {
+                // aim at the histories in which recover() meets a decided / fully voted entry, before and after
+                // its deadline: restarts are frequent while a tx is Prepared or Committing, the clock moves in
+                // larger steps, and commit() is left to recovery half of the time
+                let hot = pending.values().any(|t| matches!(t.phase, TxPhase::Prepared | TxPhase::Committing | TxPhase::Aborting));
+                choices.push(("crecover", if hot { 14 } else { 4 }));
+                choices.push(("crestart", if hot { 8 } else { 3 }));
+                choices.push(("ckpt", 2));
+                choices.push(("crestore", 2));
+                choices.push(("ccomplete", 4));
+                choices.push(("bigtick", if hot { 8 } else { 2 }));
+            }
+        }
+        if setup.restart {
+            // inside `ReachK`: no timeout sweep while a Committing entry is pending (`Sys.sparesCommitting`),
+            // fewer direct commit() calls
+            let committing = pending.values().any(|t| t.phase == TxPhase::Committing);
+            for c in choices.iter_mut() {
+                if c.0 == "sweep" && committing {
+                    c.1 = 0;
+                }
+                if c.0 == "ccommit" && !prepared_tx.is_empty() {
+                    c.1 = 10;
+                }
+            }
         }
         let total: u64 = choices.iter().map(|c| c.1).sum();
         let mut x = r.below(total);
@@ -1694,6 +1888,28 @@ fn gen_schedule_mode(r: &mut Rng, setup: &Setup, max_events: usize, rep: &mut Re
                 format!("tick {d}")
             },
             "sweep" => "sweep".to_string(),
+            "bigtick" => {
+                let d = 1 + r.below(4);
+                if ticks + d > 200 {
+                    continue;
+                }
+                ticks += d;
+                format!("tick {d}")
+            },
+            "ckpt" => "ckpt".to_string(),
+            "crestore" | "crestart" => {
+                // crash + restart: the checkpoint must be current (every change of the pending map was persisted);
+                // `crestart` writes it first, a bare `crestore` is only drawn when the stored one still is
+                let current = real.saved_state().map(|k| real.show_pending(&k.pending)) == Some(real.show_pending(&pending));
+                if pick == "crestart" && !current {
+                    real.exec("ckpt");
+                    lines.push("ckpt".to_string());
+                    events += 1;
+                } else if !current {
+                    continue;
+                }
+                "crestore".to_string()
+            },
             "stale" | "recover" => {
                 // with >= 2 prepared entries whose locks expired the outcome may depend on HashMap
                 // iteration order: only emitted when at most one entry is prepared on the shard
@@ -1703,7 +1919,14 @@ fn gen_schedule_mode(r: &mut Rng, setup: &Setup, max_events: usize, rep: &mut Re
                 }
                 format!("{pick} {sh} {}", r.below(3))
             },
-            "cabort" => format!("cabort {}", r.below(real.txs.len() as u64 + 1)),
+            "cabort" => {
+                let t = r.below(real.txs.len() as u64 + 1);
+                // inside `ReachK`: abort() is not called on a Committing entry
+                if setup.restart && real.txs.get(t as usize).is_some_and(|x| real.coord.get(x.real).is_some_and(|p| p.phase == TxPhase::Committing)) {
+                    continue;
+                }
+                format!("cabort {t}")
+            },
             "crecover" => "crecover".to_string(),
             "ccomplete" => {
                 let dec = real.coord.get_pending_decisions();
@@ -1749,7 +1972,7 @@ fn gen_schedule_mode(r: &mut Rng, setup: &Setup, max_events: usize, rep: &mut Re
 }
 
 fn directed() -> Vec<(&'static str, Setup, Vec<String>)> {
-    let s2 = || Setup { n: 2, t_units: 2, maxc: 100, lock_to: 1000, wallclock: false, age_parts: false, recovery: false };
+    let s2 = || Setup { n: 2, t_units: 2, maxc: 100, lock_to: 1000, wallclock: false, age_parts: false, recovery: false, restart: false };
     let l = |v: &[&str]| v.iter().map(|x| x.to_string()).collect::<Vec<String>>();
     let b = |sh: &[usize], ops: &[&str], embs: &[u64]| begin_line(sh, &ops.iter().map(|o| parse_ops(o)).collect::<Vec<_>>(), embs);
     vec![
@@ -1832,7 +2055,7 @@ fn directed_late() -> Vec<(String, Setup, Vec<String>)> {
     for n in [2usize, 3] {
         for cause in ["timeout", "no-vote"] {
             for end in ["resent-abort", "cleanup-stale"] {
-                let setup = Setup { n, t_units: 2, maxc: 100, lock_to: 1000, wallclock: false, age_parts: false, recovery: false };
+                let setup = Setup { n, t_units: 2, maxc: 100, lock_to: 1000, wallclock: false, age_parts: false, recovery: false, restart: false };
                 let shards: Vec<usize> = (0..n).collect();
                 let embs: Vec<u64> = (0..n as u64).map(|i| 1 + i % 3).collect();
                 let mut v: Vec<String> = (0..n).map(|sh| format!("preload {sh} {} {}", sh + 1, 5 + sh)).collect();
@@ -1871,7 +2094,7 @@ fn directed_late() -> Vec<(String, Setup, Vec<String>)> {
     }
     // T0 finished by its own COMMIT; the zombie's undo image is then T0's committed value
     {
-        let setup = Setup { n: 2, t_units: 2, maxc: 100, lock_to: 1000, wallclock: false, age_parts: false, recovery: false };
+        let setup = Setup { n: 2, t_units: 2, maxc: 100, lock_to: 1000, wallclock: false, age_parts: false, recovery: false, restart: false };
         let mut v: Vec<String> = vec!["preload 0 1 5".into(), "preload 1 2 6".into()];
         v.push(b(&[0, 1], &["p1=7".to_string(), "p2=8".to_string()], &[1, 2])); // 0,1 = PREPARE(T0)
         for l in ["deliver 0", "deliver 1", "deliver 2", "deliver 3", "ccommit 0", "deliver 4", "deliver 5"] {
@@ -1892,7 +2115,7 @@ fn directed_late() -> Vec<(String, Setup, Vec<String>)> {
 /// holds T0's key on shard 1, a YES tagged "shard 2" reaches the coordinator after shard 0's YES and
 /// BEFORE shard 1's CONFLICT.
 fn directed_forged() -> Vec<(&'static str, Setup, Vec<String>)> {
-    let s3 = || Setup { n: 3, t_units: 2, maxc: 100, lock_to: 1000, wallclock: false, age_parts: false, recovery: false };
+    let s3 = || Setup { n: 3, t_units: 2, maxc: 100, lock_to: 1000, wallclock: false, age_parts: false, recovery: false, restart: false };
     let l = |v: &[&str]| v.iter().map(|x| x.to_string()).collect::<Vec<String>>();
     let b = |sh: &[usize], ops: &[&str], embs: &[u64]| begin_line(sh, &ops.iter().map(|o| parse_ops(o)).collect::<Vec<_>>(), embs);
     vec![
@@ -1939,7 +2162,7 @@ fn directed_forged() -> Vec<(&'static str, Setup, Vec<String>)> {
 /// changes (Lean: `storage_key_alias_is_refused`).  `/rev`: the two PREPAREs reach shard 0 in the other
 /// order.  `put-row-key-vs-table-update` is the one history that needs the WRITE key in the lock set.
 fn alias_histories() -> Vec<(String, Setup, Vec<String>)> {
-    let s2 = || Setup { n: 2, t_units: 2, maxc: 100, lock_to: 1000, wallclock: false, age_parts: false, recovery: false };
+    let s2 = || Setup { n: 2, t_units: 2, maxc: 100, lock_to: 1000, wallclock: false, age_parts: false, recovery: false, restart: false };
     let b = |sh: &[usize], ops: &[&str], embs: &[u64]| begin_line(sh, &ops.iter().map(|o| parse_ops(o)).collect::<Vec<_>>(), embs);
     let mk = |a: &str, bb: &str, rev: bool| {
         let mut v = vec![b(&[0, 1], &[a, "p2=8"], &[1, 2]), b(&[0, 1], &[bb, "p3=10"], &[1, 2])];
@@ -1968,6 +2191,118 @@ fn alias_histories() -> Vec<(String, Setup, Vec<String>)> {
     out
 }
 
+
+/// Coordinator restarts inside the alphabet `ReachK` (Restart.lean), run before the random streams.  The first is
+/// the shortest history in which the phase test of `recover()` is the only thing between a late restart and a
+/// changed decision: both shards vote YES, the coordinator restarts in time (`recover()` decides commit, COMMIT is
+/// sent, shard 0 applies), checkpoints and crashes before shard 1 hears of it; the second restart happens after the
+/// transaction's deadline; whatever `get_pending_decisions` says then is delivered to shard 1.  Its neighbours: the
+/// same without checkpoint files, many restarts, every phase `recover()` can meet on a reachable state × deadline
+/// passed or not, two transactions in different phases, the ordinary commit path followed by a restart.
+/// Timeout = 2 units.  Pool of a 2-shard tx: 0,1 = PREPARE; 2,3 = the YES votes.
+fn directed_restart() -> Vec<(&'static str, Setup, Vec<String>)> {
+    let s2 = || Setup { n: 2, t_units: 2, maxc: 100, lock_to: 1000, wallclock: false, age_parts: false, recovery: false, restart: true };
+    let l = |v: &[&str]| v.iter().map(|x| x.to_string()).collect::<Vec<String>>();
+    let b = |sh: &[usize], ops: &[&str], embs: &[u64]| begin_line(sh, &ops.iter().map(|o| parse_ops(o)).collect::<Vec<_>>(), embs);
+    let t0 = || b(&[0, 1], &["p1=7", "p3=9"], &[1, 2]);
+    let both_yes = ["deliver 0", "deliver 1", "deliver 2", "deliver 3"];
+    let mk = |tail: &[&str]| {
+        let mut v = vec![t0()];
+        v.extend(l(&both_yes));
+        v.extend(l(tail));
+        v
+    };
+    vec![
+        // 4,5 = COMMIT (first restart); 6,7 = what the late restart re-sends
+        ("committing/late-second-restart", s2(), mk(&["ckpt", "crestore", "crecover", "deliver 4", "ckpt", "tick 3", "crestore", "crecover",
+            "deliver 7", "ccomplete_abort 0", "ccomplete_commit 0", "ckpt", "crestore", "crecover"])),
+        ("committing/late-second-recover-no-checkpoint", s2(), mk(&["crecover", "tick 3", "crecover", "deliver 4", "deliver 7", "ccomplete_commit 0", "crecover"])),
+        ("committing/second-restart-in-time", s2(), mk(&["ckpt", "crestore", "crecover", "deliver 4", "tick 1", "ckpt", "crestore", "crecover", "deliver 7", "ccomplete_commit 0"])),
+        ("committing/many-restarts", s2(), mk(&["crecover", "tick 1", "crecover", "tick 1", "ckpt", "crestore", "crecover", "tick 1", "crecover", "tick 50", "ckpt",
+            "crestore", "crecover", "deliver 4", "deliver 13", "ccomplete_commit 0", "crecover"])),
+        ("committing/late-restart-then-late-votes-and-duplicates", s2(), mk(&["crecover", "deliver 5", "tick 9", "ckpt", "crestore", "crecover", "deliver 2", "deliver 0",
+            "deliver 6", "deliver 4", "ccommit 0", "ccomplete_commit 0", "deliver 7"])),
+        // Prepared when the deadline passes: recovery aborts, and the abort stays an abort on every later restart
+        ("prepared/past-deadline-aborts-and-stays", s2(), mk(&["tick 3", "ckpt", "crestore", "crecover", "deliver 4", "tick 5", "crecover", "ccomplete_commit 0",
+            "ccommit 0", "deliver 7", "ccomplete_abort 0", "crecover"])),
+        // Preparing (one vote in) when the deadline passes; shard 1's PREPARE and vote arrive afterwards
+        ("preparing/past-deadline", s2(), {
+            let mut v = vec![t0()];
+            v.extend(l(&["deliver 0", "deliver 2", "tick 3", "crecover", "deliver 1", "deliver 5", "tick 2", "ckpt", "crestore", "crecover", "deliver 3", "deliver 7",
+                "ccomplete_abort 0", "crecover"]));
+            v
+        }),
+        // Preparing, restart in time: nothing is decided, the remaining vote arrives, commit() decides
+        ("preparing/in-time-then-commit", s2(), {
+            let mut v = vec![t0()];
+            v.extend(l(&["deliver 0", "deliver 2", "ckpt", "crestore", "crecover", "deliver 1", "deliver 3", "ccommit 0", "deliver 4", "deliver 5", "ckpt", "tick 5",
+                "crestore", "crecover"]));
+            v
+        }),
+        // Aborting by a NO vote, then a late restart: the abort is re-sent, never anything else
+        ("aborting/no-vote-then-late-restart", s2(), {
+            let mut v = vec![t0()];
+            v.extend(l(&["deliver 0", "deliver 2", "cvote 0 1 n -", "ckpt", "tick 9", "crestore", "crecover", "deliver 3", "deliver 6", "ccomplete_commit 0",
+                "ccomplete_abort 0", "crecover"]));
+            v
+        }),
+        // Aborting by a cross-shard conflict — EVERY vote is a YES — then restarts in time and late: stays an abort
+        ("aborting/cross-shard-conflict-all-yes-then-restarts", s2(), {
+            let mut v = vec![b(&[0, 1], &["p1=7", "p1=9"], &[1, 1])];
+            v.extend(l(&both_yes)); //                                4,5 = ABORT (cross_shard)
+            v.extend(l(&["ckpt", "crestore", "crecover", "tick 3", "ckpt", "crestore", "crecover", "deliver 4", "deliver 9", "ccomplete_commit 0", "ccommit 0",
+                "ccomplete_abort 0", "crecover"]));
+            v
+        }),
+        // T0 Committing and T1 Preparing (one vote in), both past their deadlines at the same late restart
+        ("two-txs/committing-and-preparing-past-deadline", s2(), {
+            let mut v = mk(&["ckpt", "crestore", "crecover", "deliver 4"]);
+            v.push(b(&[0, 1], &["p2=8", "p4=1"], &[1, 2])); //      6,7 = PREPARE(T1)
+            v.extend(l(&["deliver 6", "deliver 8", "ckpt", "tick 50", "crestore", "crecover", "deliver 10", "ccomplete_commit 0", "deliver 11", "deliver 12",
+                "ccomplete_abort 1", "ckpt", "crestore", "crecover"]));
+            v
+        }),
+        // the ordinary commit path, then a late restart: nothing is pending, nothing is re-decided
+        ("committed/commit-then-late-restart", s2(), mk(&["ccommit 0", "ckpt", "tick 5", "crestore", "crecover", "deliver 4", "deliver 5", "sweep"])),
+        // three shards: the decision reaches the shards one restart at a time
+        ("committing/three-shards-one-shard-per-restart", Setup { n: 3, ..s2() }, {
+            let mut v = vec![b(&[0, 1, 2], &["p1=7", "p3=9", "d5"], &[1, 2, 3])]; //  0,1,2 = PREPARE; 3,4,5 = votes
+            v.extend(l(&["preload 2 5 4", "deliver 0", "deliver 1", "deliver 2", "deliver 3", "deliver 4", "deliver 5", "ckpt", "crestore", "crecover", "deliver 6",
+                "tick 3", "ckpt", "crestore", "crecover", "deliver 10", "tick 3", "ckpt", "crestore", "crecover", "deliver 14", "ccomplete_commit 0"]));
+            v
+        }),
+    ]
+}
+
+/// `recover()` on a pending entry in EVERY phase — also the ones no reachable state shows it (`Committed`, `Aborted`,
+/// `Prepared` with a NO vote or with votes missing) — before and after the deadline: the entry's phase is doctored
+/// (`cphase`, outside the alphabet) and the statistics, the phases and `get_pending_decisions` are compared with
+/// `recoverArm` of Recovery.lean.  Correspondence only.
+fn restart_arms() -> Vec<(String, Setup, Vec<String>)> {
+    let s2 = || Setup { n: 2, t_units: 2, maxc: 100, lock_to: 1000, wallclock: false, age_parts: false, recovery: false, restart: true };
+    let b = |sh: &[usize], ops: &[&str], embs: &[u64]| begin_line(sh, &ops.iter().map(|o| parse_ops(o)).collect::<Vec<_>>(), embs);
+    let mut out = vec![];
+    for votes in ["all-yes", "one-yes", "a-no"] {
+        for phase in ["preparing", "prepared", "committing", "aborting", "committed", "aborted"] {
+            for late in [false, true] {
+                let mut v = vec![b(&[0, 1], &["p1=7", "p3=9"], &[1, 2])];
+                match votes {
+                    "all-yes" => v.extend(["deliver 0", "deliver 1", "deliver 2", "deliver 3"].iter().map(|x| x.to_string())),
+                    "one-yes" => v.extend(["deliver 0", "deliver 2"].iter().map(|x| x.to_string())),
+                    _ => v.extend(["deliver 0", "deliver 2", "forge 0 7 n", "deliver 3"].iter().map(|x| x.to_string())),
+                }
+                v.push(format!("cphase 0 {phase}"));
+                if late {
+                    v.push("tick 3".into());
+                }
+                v.extend(["ckpt", "crestore", "crecover", "crecover", "ccomplete_commit 0", "ccomplete_abort 0", "crecover"].iter().map(|x| x.to_string()));
+                out.push((format!("{phase}/{votes}/{}", if late { "past-deadline" } else { "in-time" }), s2(), v));
+            }
+        }
+    }
+    out
+}
+
 /// The two counter-traces over the EXTENDED alphabet (Lean: `…_outside_quantifier_witness`).
 fn witnesses() -> Vec<(&'static str, Setup, Vec<String>)> {
     let l = |v: &[&str]| v.iter().map(|x| x.to_string()).collect::<Vec<String>>();
@@ -1975,7 +2310,7 @@ fn witnesses() -> Vec<(&'static str, Setup, Vec<String>)> {
     vec![
         (
             "cleanup_stale_splits_outcome",
-            Setup { n: 2, t_units: 2, maxc: 100, lock_to: 1000, wallclock: false, age_parts: false, recovery: false },
+            Setup { n: 2, t_units: 2, maxc: 100, lock_to: 1000, wallclock: false, age_parts: false, recovery: false, restart: false },
             {
                 let mut v = vec![];
                 v.push(b(&[0, 1], &["p1=7", "p3=9"], &[1, 2]));
@@ -1985,7 +2320,7 @@ fn witnesses() -> Vec<(&'static str, Setup, Vec<String>)> {
         ),
         (
             "lock_expiry_abort_changes_shard",
-            Setup { n: 1, t_units: 2, maxc: 100, lock_to: 0, wallclock: false, age_parts: true, recovery: false },
+            Setup { n: 1, t_units: 2, maxc: 100, lock_to: 0, wallclock: false, age_parts: true, recovery: false, restart: false },
             {
                 let mut v = l(&["preload 0 1 5"]);
                 v.push(b(&[0], &["p1=7"], &[1]));
@@ -2116,6 +2451,11 @@ const EXPECTED: &[&str] = &[
     "alias.second_prepare_refused", "alias.refused_by_storage_or_write_key_only", "race.record_vote.interleaving_confirmed",
     "crecover.decisions", "crecover.no_decision", "ccomplete_commit.ok", "ccomplete_commit.not_found", "ccomplete_commit.wrong_phase",
     "ccomplete_abort.ok", "ccomplete_abort.not_found", "ccomplete_abort.wrong_phase", "cforce.ok", "cforce.not_found", "cforce.wrong_phase",
+    "restart.checkpoint", "restart.restore.current", "restart.restore.stale_or_none",
+    "restart.recover.preparing_in_time", "restart.recover.preparing_past_deadline", "restart.recover.prepared_in_time",
+    "restart.recover.prepared_past_deadline", "restart.recover.committing_in_time", "restart.recover.committing_past_deadline",
+    "restart.recover.aborting_in_time", "restart.recover.aborting_past_deadline", "restart.recover.committed_in_time",
+    "restart.recover.committed_past_deadline", "restart.recover.aborted_in_time", "restart.recover.aborted_past_deadline",
 ];
 
 /// Does the script, run on fresh REAL objects only, trip the monitor `class`?
@@ -2134,6 +2474,20 @@ fn real_violation(setup: &Setup, lines: &[String], class: &str) -> Option<String
 }
 fn real_violates(setup: &Setup, lines: &[String], class: &str) -> bool {
     real_violation(setup, lines, class).is_some()
+}
+/// number of lines up to and including the event at which the monitor `class` first fires on fresh REAL objects
+fn violating_prefix_len(setup: &Setup, lines: &[String], class: &str) -> Option<usize> {
+    std::panic::catch_unwind(std::panic::AssertUnwindSafe(|| {
+        let mut real = Real::new(setup.n, setup.t_units, setup.maxc, setup.wallclock, setup.age_parts);
+        for (i, l) in lines.iter().enumerate() {
+            real.exec(l);
+            if real.viol.iter().any(|v| v.class == class) {
+                return Some(i + 1);
+            }
+        }
+        None
+    }))
+    .unwrap_or(None)
 }
 
 fn record(rep: &mut Report, m: &mut Model, stream: &str, setup: &Setup, lines: &[String], o: &Outcome) {
@@ -2157,7 +2511,10 @@ fn record(rep: &mut Report, m: &mut Model, stream: &str, setup: &Setup, lines: &
         } else {
             let prev = std::panic::take_hook();
             std::panic::set_hook(Box::new(|_| {}));
-            let v = shrink_list(lines, &mut |cand: &[String]| real_violates(setup, cand, class) && cleanups_are_noops(m, setup, cand));
+            // nothing after the violating event is needed (and events after it may leave the alphabet on the
+            // model's side of a divergence, which would make every candidate that keeps them invalid)
+            let cut = violating_prefix_len(setup, lines, class).unwrap_or(lines.len());
+            let v = shrink_list(&lines[..cut], &mut |cand: &[String]| real_violates(setup, cand, class) && cleanups_are_noops(m, setup, cand));
             std::panic::set_hook(prev);
             v
         };
@@ -2183,7 +2540,7 @@ fn main() {
                 if let (Some(init), Some(script)) = (fi["setup"].as_str(), fi["script"].as_array()) {
                     let w: Vec<u64> = init.split_whitespace().skip(1).filter_map(|x| x.parse().ok()).collect();
                     if w.len() == 4 {
-                        let setup = Setup { n: w[0] as usize, t_units: w[1], maxc: w[2] as usize, lock_to: w[3], wallclock: false, age_parts: false, recovery: false };
+                        let setup = Setup { n: w[0] as usize, t_units: w[1], maxc: w[2] as usize, lock_to: w[3], wallclock: false, age_parts: false, recovery: false, restart: false };
                         let lines: Vec<String> = script.iter().filter_map(|x| x.as_str().map(String::from)).collect();
                         let o = run_script(&mut m, &mut rep, "replay", &setup, &lines, true);
                         record(&mut rep, &mut m, "replay", &setup, &lines, &o);
@@ -2210,6 +2567,21 @@ fn main() {
         record(&mut rep, &mut m, "directed-alias", &setup, &lines, &o);
         if name == "put-row-key-vs-table-update" {
             rep.sample(json!({"stream": "directed-alias", "name": name, "setup": setup.init_line(), "script": lines}));
+        }
+    }
+
+
+    // ---- coordinator restarts inside the alphabet (recover() at any clock value, checkpoint / restore cycles)
+    // (`--skip-directed-restart`: mutation-testing aid, to see what the random stream finds on its own)
+    let skip_restart = args.extra.iter().any(|a| a == "--skip-directed-restart");
+    for (name, setup, lines) in directed_restart().into_iter().filter(|_| !skip_restart) {
+        let o = run_script(&mut m, &mut rep, "directed-restart", &setup, &lines, true);
+        if o.tags.iter().any(|t| t == "outside_alphabet_event") {
+            rep.note(&format!("directed-restart history {name} left the alphabet (model flagged an event !outside)"));
+        }
+        record(&mut rep, &mut m, "directed-restart", &setup, &lines, &o);
+        if name == "committing/late-second-restart" {
+            rep.sample(json!({"stream": "directed-restart", "name": name, "setup": setup.init_line(), "script": lines}));
         }
     }
 
@@ -2263,6 +2635,7 @@ fn main() {
             wallclock: false,
             age_parts: false,
             recovery: false,
+            restart: false,
         };
         let max_events = 20 + r.below(41) as usize;
         let lines = gen_schedule(&mut r, &setup, max_events, &mut rep);
@@ -2281,7 +2654,7 @@ fn main() {
     let mut r = root.fork("late-duplicates");
     let mut violating = 0;
     for i in 0..if args.thorough { 3000 } else { 250 } {
-        let setup = Setup { n: 2 + r.below(2) as usize, t_units: 2, maxc: 100, lock_to: 1000, wallclock: false, age_parts: false, recovery: false };
+        let setup = Setup { n: 2 + r.below(2) as usize, t_units: 2, maxc: 100, lock_to: 1000, wallclock: false, age_parts: false, recovery: false, restart: false };
         let max_events = 25 + r.below(36) as usize;
         let lines = gen_schedule_mode(&mut r, &setup, max_events, &mut rep, true);
         let o = run_script(&mut m, &mut rep, "late-duplicates", &setup, &lines, true);
@@ -2298,7 +2671,7 @@ fn main() {
     // ---- coordinator-level record_vote with forged votes (No votes, unknown shards, unknown txs)
     let mut r = root.fork("coord-unit");
     for _ in 0..if args.thorough { 1500 } else { 200 } {
-        let setup = Setup { n: 0, t_units: 2, maxc: 100, lock_to: 1000, wallclock: false, age_parts: false, recovery: false };
+        let setup = Setup { n: 0, t_units: 2, maxc: 100, lock_to: 1000, wallclock: false, age_parts: false, recovery: false, restart: false };
         let mut lines = vec![];
         let ntx = 1 + r.below(2) as usize;
         let mut shards_of = vec![];
@@ -2345,7 +2718,7 @@ fn main() {
     // ---- untouched wall clock: 1 ms timeout, every tick sleeps 3 ms, sweeps follow ticks
     let mut r = root.fork("wallclock");
     for _ in 0..if args.thorough { 60 } else { 12 } {
-        let setup = Setup { n: 2, t_units: 0, maxc: 100, lock_to: 1000, wallclock: true, age_parts: false, recovery: false };
+        let setup = Setup { n: 2, t_units: 0, maxc: 100, lock_to: 1000, wallclock: true, age_parts: false, recovery: false, restart: false };
         let mut lines = vec![];
         let ops = vec![gen_ops(&mut r, 3), gen_ops(&mut r, 3)];
         lines.push(begin_line(&[0, 1], &ops, &[1, 2]));
@@ -2372,7 +2745,7 @@ fn main() {
     let mut r = root.fork("extended");
     let mut ext_hits: BTreeMap<String, u64> = BTreeMap::new();
     for _ in 0..if args.thorough { 600 } else { 60 } {
-        let setup = Setup { n: 1 + r.below(2) as usize, t_units: 2, maxc: 100, lock_to: 0, wallclock: false, age_parts: true, recovery: false };
+        let setup = Setup { n: 1 + r.below(2) as usize, t_units: 2, maxc: 100, lock_to: 0, wallclock: false, age_parts: true, recovery: false, restart: false };
         let lines = gen_schedule(&mut r, &setup, 30, &mut rep);
         let o = run_script(&mut m, &mut rep, "outside-quantifier", &setup, &lines, false);
         rep.case("outside-quantifier", None);
@@ -2406,7 +2779,7 @@ fn main() {
     // ---- the coordinator's recovery API (recover / get_pending_decisions / complete_* / force_resolve):
     //      correspondence with Recovery.lean; outside the alphabet, monitor hits are observations
     {
-        let sr = || Setup { n: 2, t_units: 2, maxc: 100, lock_to: 1000, wallclock: false, age_parts: false, recovery: true };
+        let sr = || Setup { n: 2, t_units: 2, maxc: 100, lock_to: 1000, wallclock: false, age_parts: false, recovery: true, restart: false };
         let l = |v: &[&str]| v.iter().map(|x| x.to_string()).collect::<Vec<String>>();
         let b = |sh: &[usize], ops: &[&str], embs: &[u64]| begin_line(sh, &ops.iter().map(|o| parse_ops(o)).collect::<Vec<_>>(), embs);
         let both_yes = ["deliver 0", "deliver 1", "deliver 2", "deliver 3"];
@@ -2480,10 +2853,67 @@ fn main() {
             "note": "with recover / complete_* / force_resolve in the alphabet decisions can change (cleanup_timeouts and abort() have no phase test, force_resolve's all_yes is vacuous over the votes present); by design these are not violations of C03"}));
     }
 
+
+    // ---- random schedules with coordinator restarts, inside the alphabet `ReachK` of Restart.lean: every monitor armed
+    {
+        let mut r = root.fork("restart-schedules");
+        let mut violating = 0;
+        for i in 0..if args.thorough { 2400 } else { 140 } {
+            let setup = Setup { n: 2 + r.below(2) as usize, t_units: 2, maxc: 100, lock_to: 1000, wallclock: false, age_parts: false, recovery: false, restart: true };
+            let max_events = 20 + r.below(31) as usize;
+            let lines = gen_schedule(&mut r, &setup, max_events, &mut rep);
+            let o = run_script(&mut m, &mut rep, "restart-schedules", &setup, &lines, true);
+            if o.tags.iter().any(|t| t == "outside_alphabet_event") {
+                rep.hit("restart.schedule_left_alphabet");
+            }
+            record(&mut rep, &mut m, "restart-schedules", &setup, &lines, &o);
+            if i < 2 {
+                rep.sample(json!({"stream": "restart-schedules", "setup": setup.init_line(), "script": lines}));
+            }
+            violating += usize::from(!o.violations.is_empty());
+            if violating >= 6 {
+                break;
+            }
+        }
+        // recover() on every phase x votes x deadline, doctored entries: correspondence only
+        for (name, setup, lines) in restart_arms() {
+            let o = run_script(&mut m, &mut rep, "restart-arms", &setup, &lines, false);
+            rep.case("restart-arms", None);
+            for t in &o.tags {
+                if t.starts_with("restart.") {
+                    rep.hit(t);
+                }
+            }
+            let _ = name;
+        }
+        // the stale-checkpoint witness (Lean: stale_checkpoint_restore_changes_decision_outside_quantifier_witness)
+        let setup = Setup { n: 2, t_units: 2, maxc: 100, lock_to: 1000, wallclock: false, age_parts: false, recovery: false, restart: true };
+        let mut lines = vec![begin_line(&[0, 1], &[parse_ops("p1=7"), parse_ops("p3=9")], &[1, 2])];
+        for l in ["deliver 0", "deliver 1", "deliver 2", "deliver 3", "ckpt", "ccommit 0", "deliver 4", "tick 3", "crestore", "crecover", "deliver 7"] {
+            lines.push(l.to_string());
+        }
+        let o = run_script(&mut m, &mut rep, "restart-arms", &setup, &lines, true);
+        rep.case("restart-arms", None);
+        for t in &o.tags {
+            if t.starts_with("restart.") {
+                rep.hit(t);
+            }
+        }
+        rep.observe(json!({
+            "witness": "stale_checkpoint_restore_changes_decision", "setup": setup.init_line(), "script": lines,
+            "model_agrees": !o.disagreed, "reproduced_on_real_objects": !o.observations.is_empty(), "monitor_hits": o.observations,
+            "note": "a checkpoint older than a commit() decision is restored after the deadline: recover() aborts the transaction. State-based recovery forgets what was decided after the checkpoint (the WAL covers that window): outside C03's quantifier; Lean PropsRestart.lean"
+        }));
+        if !o.violations.is_empty() {
+            rep.note("the stale-checkpoint witness reported violations BEFORE its stale restore");
+            record(&mut rep, &mut m, "restart-arms", &setup, &lines, &o);
+        }
+    }
+
     // ---- duplicate prepare + duplicate commit after another tx committed the same key: re-applies
     //      the first tx's writes (not excluded by C03's statement; reported as an observation)
     {
-        let setup = Setup { n: 1, t_units: 2, maxc: 100, lock_to: 1000, wallclock: false, age_parts: false, recovery: false };
+        let setup = Setup { n: 1, t_units: 2, maxc: 100, lock_to: 1000, wallclock: false, age_parts: false, recovery: false, restart: false };
         let mut lines = vec![begin_line(&[0], &[parse_ops("p1=7")], &[1]), begin_line(&[0], &[parse_ops("p1=9")], &[1])];
         for l in ["deliver 0", "deliver 2", "ccommit 0", "deliver 3", "deliver 1", "deliver 4", "ccommit 1", "deliver 5", "deliver 0", "deliver 3"] {
             lines.push(l.to_string());
